@@ -22,11 +22,30 @@ def _call(item):
         return ('err', (repr(item)[:2000], traceback.format_exc()))
 
 
+def _call_chunk(chunk):
+    out = []
+    for item in chunk:
+        r = _call(item)
+        out.append(r)
+        if r[0] == 'err':
+            break
+    return out
+
+
 class HarnessError(RuntimeError):
     pass
 
 
-def pmap(fn, items, chunksize=None, workers=None, ordered=False):
+class Hang(RuntimeError):
+    """No result arrived within the watchdog time: the code under test does not terminate on some case."""
+
+    def __init__(self, index, seconds):
+        RuntimeError.__init__(self, 'no result for item %d within %d s' % (index, seconds))
+        self.index = index
+        self.seconds = seconds
+
+
+def pmap(fn, items, chunksize=None, workers=None, ordered=False, timeout=None):
     """Apply fn to every item in forked workers; yields results (unordered by default).
 
     fn and items need not pickle by value beyond the items/results themselves: fn is
@@ -47,10 +66,24 @@ def pmap(fn, items, chunksize=None, workers=None, ordered=False):
     ctx = mp.get_context('fork')
     sys.stdout.flush()
     sys.stderr.flush()
-    with ctx.Pool(min(workers, len(items))) as pool:
-        it = pool.imap(_call, items, chunksize) if ordered else pool.imap_unordered(_call, items, chunksize)
-        for status, val in it:
-            if status == 'err':
+    if timeout is None:
+        timeout = float(os.environ.get('VMC_RESULT_TIMEOUT', '3600'))
+    # chunk by hand: the iterator of imap with chunksize > 1 is a plain generator without next(timeout)
+    chunks = [items[i:i + chunksize] for i in range(0, len(items), chunksize)]
+    with ctx.Pool(min(workers, len(chunks))) as pool:
+        it = pool.imap(_call_chunk, chunks) if ordered else pool.imap_unordered(_call_chunk, chunks)
+        n = 0
+        while True:
+            try:
+                results = it.next(timeout)
+            except StopIteration:
+                break
+            except mp.TimeoutError:
                 pool.terminate()
-                raise HarnessError('worker failed on item %s\n%s' % val)
-            yield val
+                raise Hang(n, int(timeout))
+            for status, val in results:
+                n += 1
+                if status == 'err':
+                    pool.terminate()
+                    raise HarnessError('worker failed on item %s\n%s' % val)
+                yield val
